@@ -187,15 +187,29 @@ def run(scn):
 
         class Service(object):
             pass
-        ext = (lambda *a, **k: sc['metadata_extractor'](*a, **k)) if cfg.get('metadata_extractor') else None
+        pre = {'on': False}          # history runs before the observed one: the body returns, the extractor yields one user key
+        ext = (lambda *a, **k: {'zz_previous_run': 1} if pre['on'] else sc['metadata_extractor'](*a, **k)) if cfg.get('metadata_extractor') else None
 
         def execute(self, p):
+            if pre['on']:
+                return 0
             return body(self, p)
         Service.execute = tr.operation(metadata_extractor=ext)(execute)
         if params is not None:
             tr._classes_recording_params[Service] = RecordingParameters(**params)
         svc = Service()
+    if unit in ('W_in', 'W_out') and cfg.get('params'):
+        tr._classes_recording_params[Service] = RecordingParameters(**cfg['params'])
     if mode == 'recording':
+        if unit == 'W_op' and scn.get('history_runs'):
+            # the same decorated operation has been used before (state kept by the decorator, if any, is exercised)
+            pre['on'] = True
+            for _ in range(int(scn['history_runs'])):
+                try:
+                    svc.execute(probe)
+                except BaseException:      # noqa
+                    pass
+            pre['on'] = False; cas.events = []; cas.saved_meta = None
         try:
             if unit == 'W_op':
                 call_and_observe(svc.execute, probe)
@@ -232,6 +246,7 @@ def run(scn):
                    tr._playback_recording is None and len(tr._invoke_counter) == 0 and not tr._currently_in_interception)
     obs['saved_meta'] = {k: repr(v) for k, v in (cas.saved_meta or {}).items()} if cas.saved_meta is not None else None
     obs['hook_calls'] = {n: len(s.calls) for n, s in sc.items() if s.calls}
+    obs['extractor_keys'] = sorted(str(k) for v in sc['metadata_extractor'].returned if isinstance(v, dict) for k in v)
     obs['substitute_returned'] = inner.get('exit') == 'ret' and ((sc['value_when_missing'].returned and inner['result'] is sc['value_when_missing'].returned[0])
                                                                   or ('value_when_missing' in cfg and not cfg.get('value_when_missing_callable') and inner.get('result') == cfg['value_when_missing'] and type(inner.get('result')) == type(cfg['value_when_missing'])))
     return obs
